@@ -14,6 +14,10 @@ PID = "C13"
 def h_child(ctx, cls, attr):
     """K's base instance extended with child `attr` (symbolic value): build, write under its tag, read back"""
     K = ofxgen.class_by_name(cls)
+    for B in reversed(K.__mro__[1:]):            # preceding workload: the base classes' declarations are consulted first
+        if isinstance(B, type) and issubclass(B, Aggregate):
+            B.spec
+            B.subaggregates
     conv = K.spec[attr]
     found = ofxgen.kwargs_with(K, attr)      # reachability witness search (native, sample values)
     ctx.check("an instance holding the declared child can be constructed", found is not None)
